@@ -294,6 +294,189 @@ example : run (init [[1], [2], [1]]) [0, 1, 2, 0, 1, 0, 2, 0, 1, 1, 1, 2, 1, 1, 
 example : (after (init [[1], [2], [1]]) [0, 1, 2, 0, 1, 0, 2, 0]).waiters = [1, 2] ∧
     (after (init [[1], [2], [1]]) [0, 1, 2, 0, 1, 0, 2, 0]).woken = true := by decide
 
+/-! ### retries: attempts that fail before anything is written consume no counter
+
+The sections of a task may be attempts of operations that failed before their next message was written
+(`Op.sections`).  `retries_serialised`/`retries_counted` are the statements above read for such tasks;
+`retries_total` adds that once everybody is done the counters that left are exactly one per message — none
+was used up by a failed attempt. -/
+
+theorem sends_append (a b : List Step) : sends (a ++ b) = sends a + sends b := by
+  induction a with
+  | nil => simp [sends]
+  | cons x a ih => cases x <;> simp [sends, ih] <;> omega
+
+theorem sends_exchanges (n : Nat) : sends (exchanges n) = n := by
+  induction n with
+  | zero => rfl
+  | succ n ih => simp [exchanges, sends, ih]
+
+theorem sends_prog (ns : List Nat) : sends (prog ns) = ns.sum := by
+  induction ns with
+  | nil => rfl
+  | cons n ns ih =>
+    simp only [prog, critical, List.cons_append, sends, sends_append, sends_exchanges, ih, List.sum_cons]
+    simp [sends]
+
+theorem sum_opSections (ops : List Op) : (opSections ops).sum = opMessages ops := by
+  induction ops with
+  | nil => rfl
+  | cons o ops ih =>
+    simp only [opSections, List.flatMap_cons, List.sum_append, opMessages, List.map_cons, List.sum_cons] at ih ⊢
+    rw [ih]
+    simp [Op.sections, Op.messages]
+
+theorem tot_succ (n : Nat) (f : Nat → List Step) : tot (n + 1) f = tot n f + sends (f n) := by
+  simp [tot, List.range_succ]
+
+theorem tot_setProg (n : Nat) (f : Nat → List Step) (t : Nat) (p : List Step) :
+    tot n (setProg f t p) + (if t < n then sends (f t) else 0) = tot n f + (if t < n then sends p else 0) := by
+  induction n with
+  | zero => simp [tot]
+  | succ n ih =>
+    rw [tot_succ, tot_succ]
+    by_cases h1 : t < n
+    · have h2 : t < n + 1 := by omega
+      have h3 : n ≠ t := by omega
+      simp only [h1, h2, ↓reduceIte, setProg, h3] at ih ⊢
+      omega
+    · by_cases h2 : t = n
+      · subst h2
+        simp only [Nat.lt_irrefl, ↓reduceIte, Nat.add_zero, Nat.lt_succ_self, setProg] at ih ⊢
+        omega
+      · have h3 : ¬ t < n + 1 := by omega
+        have h4 : n ≠ t := fun h => h2 h.symm
+        simp only [h1, h3, ↓reduceIte, setProg, h4, Nat.add_zero] at ih ⊢
+        omega
+
+theorem step_nil (s : St) (t : Nat) (h : s.progs t = []) : step s t = (s, []) := by
+  simp [step, h]
+
+theorem setProg_self (f : Nat → List Step) (t : Nat) : setProg f t (f t) = f := by
+  funext u
+  by_cases h : u = t <;> simp [setProg, h]
+
+/-- one step of a task: only its own continuation changes, and it shrinks by exactly the messages that left -/
+theorem step_progs (s : St) (k : Chk) (t : Nat) (h : Inv s k) :
+    ∃ p', (step s t).1.progs = setProg s.progs t p' ∧
+      (sent (step s t).2).length + sends p' = sends (s.progs t) := by
+  have hwf := h.progs t
+  cases hp : s.progs t with
+  | nil =>
+    rw [step_nil s t hp]
+    exact ⟨[], by rw [← hp, setProg_self], by simp [sent, sends]⟩
+  | cons a r =>
+    cases a with
+    | acq =>
+      simp only [step, hp]
+      split
+      · split
+        · exact ⟨r, rfl, by simp [sent, sends]⟩
+        · exact ⟨.acq :: r, by rw [← hp, setProg_self], by simp [sent, sends]⟩
+      · split
+        · exact ⟨r, rfl, by simp [sent, sends]⟩
+        · exact ⟨.acq :: r, by rw [← hp, setProg_self], by simp [sent, sends]⟩
+    | send =>
+      have hl : s.locked = true := by
+        rw [hp] at hwf
+        unfold modeOf at hwf
+        by_cases hh : k.holder = some t
+        · rw [h.lock, hh]; rfl
+        · simp [hh, wf] at hwf
+      simp only [step, hp, hl, ↓reduceIte]
+      exact ⟨r, rfl, by simp [sent, sends]; omega⟩
+    | recv =>
+      simp only [step, hp]
+      exact ⟨r, rfl, by simp [sent, sends]⟩
+    | rel =>
+      simp only [step, hp]
+      exact ⟨r, rfl, by simp [sent, sends]⟩
+
+theorem sent_tot (n : Nat) (sched : List Nat) : ∀ (s : St) (k : Chk), Inv s k → (∀ t, n ≤ t → s.progs t = []) →
+    (sent (run s sched)).length + tot n (after s sched).progs = tot n s.progs := by
+  induction sched with
+  | nil => intro s k _ _; simp [run, after, sent]
+  | cons t ts ih =>
+    intro s k hinv hout
+    by_cases htn : t < n
+    · obtain ⟨k', hinv', _⟩ := step_inv s k t hinv
+      obtain ⟨p', hp1, hp2⟩ := step_progs s k t hinv
+      have hout' : ∀ u, n ≤ u → (step s t).1.progs u = [] := by
+        intro u hu
+        have hut : u ≠ t := by omega
+        rw [hp1]; simp [setProg, hut, hout u hu]
+      have := ih (step s t).1 k' hinv' hout'
+      have hs := tot_setProg n s.progs t p'
+      simp only [run, after, sent_append, List.length_append]
+      rw [hp1] at this
+      simp only [htn, ↓reduceIte] at hs
+      omega
+    · have h0 : s.progs t = [] := hout t (by omega)
+      simp only [run, after, step_nil s t h0, List.nil_append]
+      exact ih s k hinv hout
+
+theorem tot_zero (n : Nat) (f : Nat → List Step) (h : ∀ t, f t = []) : tot n f = 0 := by
+  induction n with
+  | zero => rfl
+  | succ n ih => rw [tot_succ, ih, h n]; rfl
+
+theorem map_range_getD {α β : Type} (l : List α) (d : α) (g : α → β) :
+    (List.range l.length).map (fun t => g (l.getD t d)) = l.map g := by
+  induction l with
+  | nil => rfl
+  | cons a l ih =>
+    rw [List.length_cons, List.range_succ_eq_map]
+    simp only [List.map_cons, List.map_map]
+    rw [← ih]
+    simp [Function.comp_def]
+
+theorem tot_init (tasks : List (List Nat)) :
+    tot tasks.length (init tasks).progs = (tasks.map List.sum).sum := by
+  simp only [tot, init, sends_prog]
+  rw [map_range_getD tasks [] List.sum]
+
+/-- the statements above, read for tasks whose sections are attempts of operations -/
+theorem retries_serialised (tasks : List (List Op)) (sched : List Nat) :
+    check chk0 (run (init (tasks.map opSections)) sched) = true :=
+  inproc_serialised _ _
+
+theorem retries_counted (tasks : List (List Op)) (sched : List Nat) :
+    sent (run (init (tasks.map opSections)) sched)
+      = counters mbxStart (sent (run (init (tasks.map opSections)) sched)).length :=
+  inproc_counted _ _
+
+/-- **retries, counted to the end**: any number of tasks, each with any operations, each operation with any
+number of attempts that failed before their next message was written; under every schedule after which all
+tasks are done, the counters on the wire are 0,1,…,7,1,… with exactly one per message that left
+(`opMessages`): a failed attempt neither repeats nor skips a counter -/
+theorem retries_total (tasks : List (List Op)) (sched : List Nat)
+    (hdone : ∀ t, (after (init (tasks.map opSections)) sched).progs t = []) :
+    sent (run (init (tasks.map opSections)) sched)
+      = counters mbxStart ((tasks.map opMessages).sum) := by
+  have h := sent_tot (tasks.map opSections).length sched (init (tasks.map opSections)) chk0 (init_inv _)
+    (by
+      intro t ht
+      have hn : tasks[t]? = none := List.getElem?_eq_none (by simpa using ht)
+      simp [init, List.getD, hn, prog])
+  rw [tot_init] at h
+  have h0 : tot (tasks.map opSections).length (after (init (tasks.map opSections)) sched).progs = 0 := by
+    exact tot_zero _ _ hdone
+  rw [h0, List.map_map] at h
+  have hs : (tasks.map (List.sum ∘ opSections)) = tasks.map opMessages := by
+    apply List.map_congr_left
+    intro ops _
+    exact sum_opSections ops
+  rw [hs] at h
+  rw [retries_counted, ← h]
+  simp
+
+/-! non-vacuity: task 0 reads (one exchange) after two attempts that failed before sending, task 1 writes a
+value in three exchanges after an attempt that got one message out -/
+def exOps : List (List Op) := [[⟨1, [0, 0]⟩], [⟨3, [1]⟩]]
+example : sent (run (init (exOps.map opSections)) [0, 0, 1, 0, 1, 1, 1, 0, 0, 1, 0, 1, 1, 1, 1, 1, 1, 1, 1, 0, 0, 0, 0])
+    = [0, 1, 2, 3, 4] := by decide
+example : (exOps.map opMessages).sum = 5 := by decide
+
 /-! ### processes sharing the lock file -/
 
 inductive XMode where
